@@ -24,6 +24,15 @@
 //	remoteput s3 <hex>/<len> <epoch> => ok <get after> <GetByPrefix of the prefix before> <subscriber whose STORE record
 //	                                    names the prefix before> <current epoch>
 //	remotedel s3          => ok
+//	restartgap <seed> put s3 <hex>/<len> <epoch>  => the observation of `remoteput` (Get after, GetByPrefix and store owner
+//	                                 of the prefix right after the load, current epoch)
+//	restartgap <seed> del s3      => ok
+//	                                 crash + restart during which ANOTHER node changes the store right after the Query of
+//	                                 Start's load step was answered: the change is in the store and not in the snapshot.
+//	                                 The store stub notifies whoever is watching at that moment; the notification is
+//	                                 delivered when Start has returned (a real store delivers it on another goroutine, which
+//	                                 waits for the allocator's lock).  A plain restart with the same seed runs first, so that
+//	                                 the "right after the load" answers can be observed (Start is deterministic in store + seed).
 //	stress <seed>         => ok | viol <monitor> <detail>   8 goroutines Allocate/AllocateWithMAC/Renew/Release/Get (one of them
 //	                         ticks the epoch in lease mode) on a FRESH allocator + store; afterwards uniqueness, both lookup
 //	                         directions, count and (session mode) store agreement are audited
@@ -69,6 +78,16 @@ type store struct {
 	beforeDelete func()
 	// keys deleted through Delete whose watch notification is still to be delivered
 	echo []string
+	// afterQuery, when set, runs once when the next Query has computed its answer (before it returns)
+	afterQuery func()
+	// notifications of remote changes made while a Start was running, to be delivered when it has returned
+	pending []note
+}
+
+type note struct {
+	key     string
+	value   []byte
+	deleted bool
 }
 
 var errInjected = errors.New("injected store failure")
@@ -165,7 +184,23 @@ func (s *store) Query(ctx context.Context, prefix string) ([]allocator.KeyValue,
 		out = append(out, allocator.KeyValue{Key: keys[i], Value: s.data[keys[i]]})
 		keys = append(keys[:i], keys[i+1:]...)
 	}
+	if h := s.afterQuery; h != nil {
+		s.afterQuery = nil
+		h()
+	}
 	return out, nil
+}
+
+// remoteWrite is another node's write: the store changes, and whoever is watching NOW is notified (later)
+func (s *store) remoteWrite(key string, value []byte, deleted bool) {
+	if deleted {
+		delete(s.data, key)
+	} else {
+		s.data[key] = value
+	}
+	if s.cb != nil {
+		s.pending = append(s.pending, note{key, value, deleted})
+	}
 }
 
 func (s *store) Watch(prefix string, cb func(key string, value []byte, deleted bool)) { s.cb = cb }
@@ -315,6 +350,12 @@ func (g geo) randOp(r *rand.Rand, subs int) string {
 		return "remoteput " + s + " " + g.randAddr(r) + " " + ep
 	case x < 84:
 		return "remotedel " + s
+	case x < 90:
+		if r.Intn(4) == 0 {
+			return fmt.Sprintf("restartgap %d del %s", r.Intn(720), s)
+		}
+		ep := []string{"0", "2", "1000000"}[r.Intn(3)]
+		return fmt.Sprintf("restartgap %d put %s %s %s", r.Intn(720), s, g.randAddr(r), ep)
 	default:
 		return "audit"
 	}
@@ -342,6 +383,28 @@ func (comp) Gen(r *rand.Rand, tier string, emit func([]string)) {
 			}
 		}
 		seq = append(seq, "audit", fmt.Sprintf("restart %d", r.Intn(720)), "audit", "stats", "util")
+		emit(seq)
+	}
+	// another node allocates the LOWEST FREE unit for a newcomer while this node restarts (the window between the
+	// Query and the Watch of Start): the node must not hand that unit to the next subscriber
+	for i := 0; i < n/10; i++ {
+		g := geos[r.Intn(len(geos))]
+		subs := 3 + r.Intn(2)
+		lo := int64(0)
+		if g.mode == "lease" {
+			lo = 1
+		}
+		holders := r.Intn(3)
+		seq := []string{g.newOp(subs + 1)}
+		for k := 1; k <= holders; k++ {
+			seq = append(seq, fmt.Sprintf("alloc s%d 0", k))
+		}
+		seq = append(seq, fmt.Sprintf("restartgap %d put s%d %s 0", r.Intn(720), holders+1, g.addrTok(lo+int64(holders))), "audit",
+			fmt.Sprintf("alloc s%d 0", holders+2), "audit", fmt.Sprintf("get s%d", holders+1))
+		if holders > 0 {
+			seq = append(seq, fmt.Sprintf("restartgap %d del s1", r.Intn(720)), "audit", fmt.Sprintf("alloc s%d 0", subs+1), "audit")
+		}
+		seq = append(seq, fmt.Sprintf("restart %d", r.Intn(720)), "audit", "stats")
 		emit(seq)
 	}
 	// replicated MOVES: a remote put moves a known subscriber to another prefix, a second remote put hands the
@@ -513,7 +576,8 @@ func genRT(r *rand.Rand) []string {
 func exhaustive(emit func([]string)) {
 	for _, g := range []geo{geos[1], geos[5]} {
 		alpha := []string{"alloc s1 0", "alloc s1 1", "alloc s2 0", "alloc s2 1", "release s1 0", "release s1 1", "release s2 0",
-			"restart 0", "restart 1", "remoteput s2 " + g.addrTok(1) + " 1000000", "remoteput s1 " + g.addrTok(2) + " 1000000", "remotedel s1"}
+			"restart 0", "restart 1", "remoteput s2 " + g.addrTok(1) + " 1000000", "remoteput s1 " + g.addrTok(2) + " 1000000", "remotedel s1",
+			"restartgap 0 put s2 " + g.addrTok(1) + " 1000000", "restartgap 1 del s1"}
 		if g.mode == "lease" {
 			alpha = append(alpha, "tick 0 0", "tick 1 0", "renew s1 00", "renew s1 01", "renew s1 10")
 		}
@@ -573,6 +637,7 @@ func (r *run) start(seed uint64, queryFails bool) string {
 	// the old instance is gone: nobody watches until the new one has started
 	r.st.cb = nil
 	r.st.echo = nil
+	r.st.pending = nil
 	r.down = false
 	cfg := allocator.DistributedConfig{
 		PoolID:      "p",
@@ -597,11 +662,21 @@ func (r *run) start(seed uint64, queryFails bool) string {
 	}
 	err = da.Start(ctx)
 	r.st.fails = nil
+	r.st.afterQuery = nil
 	r.da = da
 	if err != nil {
 		r.down = true
 		r.st.cb = nil
+		r.st.pending = nil
 		return "error"
+	}
+	// notifications of what other nodes wrote while Start was running reach the watch now
+	for len(r.st.pending) > 0 {
+		n := r.st.pending[0]
+		r.st.pending = r.st.pending[1:]
+		if r.st.cb != nil {
+			r.st.cb(n.key, n.value, n.deleted)
+		}
 	}
 	return "ok"
 }
@@ -701,7 +776,7 @@ func (r *run) do(op string) string {
 	if r.da == nil {
 		return "badop"
 	}
-	if r.down && f[0] != "restart" {
+	if r.down && f[0] != "restart" && f[0] != "restartgap" {
 		return "down"
 	}
 	switch f[0] {
@@ -814,6 +889,41 @@ func (r *run) do(op string) string {
 			r.st.cb(r.key(f[1]), val, false)
 		}
 		return fmt.Sprintf("ok %s %s %s %d", r.getTok(f[1]), before, storeBefore, r.da.GetCurrentEpoch())
+	case "restartgap":
+		if len(f) < 4 || (f[2] == "put" && len(f) != 6) || (f[2] == "del" && len(f) != 4) || (f[2] != "put" && f[2] != "del") {
+			return "badop"
+		}
+		seed, _ := strconv.ParseUint(f[1], 10, 64)
+		// the node as it is right after a load from this store in this order
+		if v := r.start(seed, false); v != "ok" {
+			return v
+		}
+		if f[2] == "del" {
+			r.st.afterQuery = func() { r.st.remoteWrite(r.key(f[3]), nil, true) }
+			return r.start(seed, false)
+		}
+		pfx := parseNet(f[4], r.g.fam)
+		ep, _ := strconv.ParseUint(f[5], 10, 64)
+		before := "none"
+		if s, ok := r.da.GetByPrefix(pfx); ok {
+			before = subTok(s)
+		}
+		storeBefore := "none"
+		if _, want, err := net.ParseCIDR(pfx.String()); err == nil {
+			for i := 1; i <= r.nsubs; i++ {
+				sub := fmt.Sprintf("s%d", i)
+				if n := r.storeNet(sub); n != nil && n.String() == want.String() {
+					storeBefore = sub
+					break
+				}
+			}
+		}
+		val, _ := json.Marshal(&allocator.DistributedAllocation{PoolID: "p", SubscriberID: subID(f[3]), Prefix: pfx.String(), Epoch: ep})
+		r.st.afterQuery = func() { r.st.remoteWrite(r.key(f[3]), val, false) }
+		if v := r.start(seed, false); v != "ok" {
+			return v
+		}
+		return fmt.Sprintf("ok %s %s %s %d", r.getTok(f[3]), before, storeBefore, r.da.GetCurrentEpoch())
 	case "remotedel":
 		delete(r.st.data, r.key(f[1]))
 		if r.st.cb != nil {
